@@ -493,13 +493,17 @@ def determinism_selftest(prop, verif_seed, tier, n_inproc, n_fresh):
     from simcore import shims
 
     shims.setup()
-    digs = {}
+    # two pristine forked children execute the same sequence of runs: equal digests <=> a run is a function of
+    # (code, plan, choices, the runs before it in its process). Executing one index twice in ONE process would mistake
+    # process-global state of the code under test (a class-level counter, a module cache) for harness nondeterminism.
+    def seq():
+        return [one_run(prop, verif_seed, i, tier)["digest"] for i in range(n_inproc)]
+
+    a, b = run_forked(seq), run_forked(seq)
     for i in range(n_inproc):
-        a = one_run(prop, verif_seed, i, tier)
-        b = one_run(prop, verif_seed, i, tier)
-        if a["digest"] != b["digest"]:
-            return False, f"index {i}: in-process digests differ {a['digest']} vs {b['digest']}", 0
-        digs[i] = a["digest"]
+        if a[i] != b[i]:
+            return False, f"index {i}: digests differ between two identical executions {a[i]} vs {b[i]}", 0
+    digs = dict(enumerate(a))
     if n_fresh:
         p = fresh_exec(
             [prop.ID, "--digests", str(n_fresh), "--tier", tier],
@@ -637,7 +641,15 @@ def check(prop_id, tier, verif_seed):
             continue
         if len(reported) >= cfg.get("max_reports", 4):
             continue
-        m = run_forked(minimise, prop, v, cfg.get("minimise_s", 60))
+        # does the run violate on its own in a pristine process? (if not, it needs the runs before it: history mode)
+        alone = run_forked(_exec_sequence, prop.ID, [(v["plan"], v["choices"] or None)], sig)
+        m = None
+        if alone is not None:
+            m = run_forked(minimise, prop, v, cfg.get("minimise_s", 60))
+            if m is None or run_forked(_exec_sequence, prop.ID, [(m["plan"], m["choices"] or None)], sig) is None:
+                # the minimiser's candidates share one process; if state they left behind misled it, keep the original run
+                m = {"plan": v["plan"], "choices": alone["choices"], "kind": alone["kind"], "sig": sig, "detail": alone["detail"],
+                     "digest": alone["digest"], "tried": 1}
         if m is None:
             # not reproducible alone: does it need the runs that came before it in its process?
             m = minimise_history(prop, v, verif_seed, tier, cfg.get("minimise_s", 60))
